@@ -938,6 +938,62 @@ func init() {
 			return nil
 		},
 		"time.Sleep":               func(fr *frame, args []value) value { sched.quiesce(); return nil },
+		// sync.Map: an ordered map per receiver (the scheduler is cooperative, so no atomics are needed)
+		"(*sync.Map).Load": func(fr *frame, args []value) value {
+			if v, ok := syncMapOf(args[0]).lookup(args[1]); ok {
+				return tuple{v, true}
+			}
+			return tuple{iface{}, false}
+		},
+		"(*sync.Map).Store": func(fr *frame, args []value) value { syncMapOf(args[0]).insert(args[1], args[2]); return nil },
+		"(*sync.Map).LoadOrStore": func(fr *frame, args []value) value {
+			m := syncMapOf(args[0])
+			if v, ok := m.lookup(args[1]); ok {
+				return tuple{v, true}
+			}
+			m.insert(args[1], args[2])
+			return tuple{args[2], false}
+		},
+		"(*sync.Map).LoadAndDelete": func(fr *frame, args []value) value {
+			m := syncMapOf(args[0])
+			if v, ok := m.lookup(args[1]); ok {
+				m.delete(args[1])
+				return tuple{v, true}
+			}
+			return tuple{iface{}, false}
+		},
+		"(*sync.Map).Delete": func(fr *frame, args []value) value { syncMapOf(args[0]).delete(args[1]); return nil },
+		"(*sync.Map).Swap": func(fr *frame, args []value) value {
+			m := syncMapOf(args[0])
+			old, ok := m.lookup(args[1])
+			m.insert(args[1], args[2])
+			if ok {
+				return tuple{old, true}
+			}
+			return tuple{iface{}, false}
+		},
+		"(*sync.Map).Clear": func(fr *frame, args []value) value { delete(syncMaps, args[0].(*value)); return nil },
+		"(*sync.Map).Range": func(fr *frame, args []value) value {
+			m := syncMapOf(args[0])
+			snapshot := append([]*oentry(nil), m.entries...)
+			for _, e := range snapshot {
+				if e.dead {
+					continue
+				}
+				if !P.truth(call(fr.i, fr, token.NoPos, args[1], []value{e.key, e.val})) {
+					break
+				}
+			}
+			return nil
+		},
+		// sync/atomic on plain integers and pointers: loads and stores of the cell
+		"sync/atomic.LoadInt32":   atomicLoad, "sync/atomic.LoadInt64": atomicLoad, "sync/atomic.LoadUint32": atomicLoad,
+		"sync/atomic.LoadUint64":  atomicLoad, "sync/atomic.LoadPointer": atomicLoad, "sync/atomic.LoadUintptr": atomicLoad,
+		"sync/atomic.StoreInt32":  atomicStore, "sync/atomic.StoreInt64": atomicStore, "sync/atomic.StoreUint32": atomicStore,
+		"sync/atomic.StoreUint64": atomicStore, "sync/atomic.StorePointer": atomicStore, "sync/atomic.StoreUintptr": atomicStore,
+		"sync/atomic.AddInt32":    atomicAdd, "sync/atomic.AddInt64": atomicAdd, "sync/atomic.AddUint32": atomicAdd, "sync/atomic.AddUint64": atomicAdd,
+		"sync/atomic.CompareAndSwapInt32": atomicCAS, "sync/atomic.CompareAndSwapInt64": atomicCAS,
+		"sync/atomic.CompareAndSwapUint32": atomicCAS, "sync/atomic.CompareAndSwapUint64": atomicCAS,
 		"(*sync.RWMutex).Lock":    func(fr *frame, args []value) value { mutexLock(args[0].(*value)); return nil },
 		"(*sync.RWMutex).Unlock":  func(fr *frame, args []value) value { mutexUnlock(args[0].(*value)); return nil },
 		"(*sync.RWMutex).RLock":   func(fr *frame, args []value) value { mutexRLock(args[0].(*value)); return nil },
@@ -950,3 +1006,51 @@ func init() {
 }
 
 var _ = ssa.BuilderMode(0)
+
+// ---------------------------------------------------------------- sync.Map, sync/atomic
+
+var syncMaps = map[*value]*omap{}
+
+func syncMapOf(recv value) *omap {
+	p := recv.(*value)
+	m := syncMaps[p]
+	if m == nil {
+		any := types.NewInterfaceType(nil, nil)
+		m = makeMap(any, any, 0).(*omap)
+		syncMaps[p] = m
+	}
+	return m
+}
+
+func atomicLoad(fr *frame, args []value) value { return *(args[0].(*value)) }
+
+func atomicStore(fr *frame, args []value) value {
+	*(args[0].(*value)) = args[1]
+	return nil
+}
+
+func atomicAdd(fr *frame, args []value) value {
+	p := args[0].(*value)
+	var t types.Type
+	switch (*p).(type) {
+	case int32:
+		t = types.Typ[types.Int32]
+	case int64:
+		t = types.Typ[types.Int64]
+	case uint32:
+		t = types.Typ[types.Uint32]
+	default:
+		t = types.Typ[types.Uint64]
+	}
+	*p = binop(token.ADD, t, *p, args[1])
+	return *p
+}
+
+func atomicCAS(fr *frame, args []value) value {
+	p := args[0].(*value)
+	if P.truth(scalarEqV(*p, args[1])) {
+		*p = args[2]
+		return true
+	}
+	return false
+}
